@@ -24,7 +24,25 @@ from harness import common as C
 from harness import schema_xml as X
 
 PROP = "C11"
-FIXED = True       # fix: commits f83491d, d18c9c6 are in /repo; mirrored by the Coq-side [fixed] argument (sent to the extracted model with every case)
+# Repair switches, mirrored by the Coq-side arguments [fixed] [f3] [f4] of Model/Units.v (sent to the extracted
+# model with every case).  1 = the repaired code (what /repo contains), 0 = the code before that repair:
+#   VERIF_C11_FIXED     fix: commits f83491d, d18c9c6 (C11-F1 case-folded lookup in conversion, C11-F2 a^b factors)
+#   VERIF_C11_FIXED_F4  repair of C11-F4 (a unit after the number only counts when the value is a single word)
+#   VERIF_C11_FIXED_F3  repair of C11-F3 (number = first word, unit text = the rest: unit names with blanks)
+FIXED = int(os.environ.get("VERIF_C11_FIXED", "1"))
+FIXED_F4 = int(os.environ.get("VERIF_C11_FIXED_F4", str(FIXED)))
+FIXED_F3 = int(os.environ.get("VERIF_C11_FIXED_F3", str(FIXED)))
+# the findings these repairs removed; recognised (printed as KNOWN-FINDING) only when the matching switch is 0
+PRE_FIX_FINDINGS = {
+    "C11-F1": (lambda: not FIXED, "before fix: f83491d -- an accepted unit NAME written in a different letter case "
+               "than the derived lower-case key made value_as_default_unit raise TypeError"),
+    "C11-F2": (lambda: not FIXED, "before fix: d18c9c6 -- conversionFactor written a^b read as 10e6: value 10x too "
+               "large per caret"),
+    "C11-F3": (lambda: not FIXED_F3, "before the F3 repair -- a declared unit name that contains a blank ('degree "
+               "Celsius') was never accepted (UNITS_INVALID)"),
+    "C11-F4": (lambda: not FIXED_F4 and not FIXED_F3, "before the F4 repair -- several words after the number whose "
+               "LAST word is an accepted unit drew no UNITS_INVALID; value_as_default_unit raised ValueError"),
+}
 COQ_TARGETS = ["Props/C11.vo", "Extract/ExtractC11.vo"]
 TRUSTED = [
     "Model/Units.v is a hand transcription of UnitEntry.finalize_entry/_get_conversion_factor/get_conversion_factor, "
@@ -42,11 +60,13 @@ TRUSTED = [
 ]
 ASSUMPTIONS = [
     "theorems hold for every unit schema satisfying the boolean predicate wf_schema (checked by vm_compute for each "
-    "bundled schema) and every list of its unit classes; value theorems additionally assume the unit text has a "
-    "single reading (cands ... = [e]) -- the bundled exceptions are computed (uV in electricPotentialUnits)",
-    "the full value theorems are proved for the repaired lookup/parsing (fixed = true); for the code as it stands "
-    "they are refuted by kernel-evaluated witnesses (C11-F1, C11-F2) and proved under explicit extra hypotheses",
-    "unit texts are single words in the theorems (a unit name containing a blank can never be matched: C11-F3)",
+    "bundled schema) and every list of its unit classes; they additionally assume the unit text has a single reading "
+    "(unamb) and the text before the last blank is not itself a unit spelling (cands = []) -- the only bundled text "
+    "with two readings is computed (uV in electricPotentialUnits)",
+    "the theorems stated first in Props/C11.v are about the code as it now is (all repair switches true: fix: "
+    "f83491d, d18c9c6 and the repairs of C11-F3, C11-F4); for each switch = false the corresponding full statement "
+    "is refuted by a kernel-evaluated witness, kept as the record of the repaired defect",
+    "the number text is one word; the unit text may have any number of words (unit names with blanks)",
 ]
 
 NUMERIC_REGEX = "^[+-]?(\\d+(\\.\\d*)?|\\.\\d+)([eE][+-]?\\d+)?$"     # what Model/Units.v scan_num was written against
@@ -531,6 +551,11 @@ def gen_cases(view, key, rng, full_all_tags, n_other, sample_step):
                         if " " in u["name"]:
                             for v in (u["name"], u["name"].lower(), u["plural"]):
                                 cases.append((key, t["name"], None, f"3 {v}", "blank-name"))
+                                cases.append((key, t["name"], None, f"1.5 x {v}", "blank-name"))
+                                cases.append((key, t["name"], None, f"2 {v} x", "blank-name"))
+                                cases.append((key, t["name"], None, f"4 {v.split(' ')[0]}", "blank-name"))
+                                cases.append((key, t["name"], None, f"5 {v.split(' ')[-1]}", "blank-name"))
+                                cases.append((key, t["name"], None, f"{v} 6", "blank-name"))
     # unit classes no bundled tag uses: through a host tag whose entry is given that class
     used = {c for t in view["tags"] for c in t["classes"]}
     if numeric_tags:
@@ -561,6 +586,11 @@ CORPUS = [
     ("8_3_0", "Duration", None, "3 Ms", "corpus"),               # 8.3.0 itself writes 10e6: as the schema defines
     ("8_1_0", "Temperature", None, "3 degree Celsius", "corpus"),  # C11-F3
     ("8_3_0", "Duration", None, "3 m s", "corpus"),              # C11-F4
+    ("8_3_0", "Duration", None, "3 abc seconds", "corpus"),      # C11-F4
+    ("8_2_0", "Temperature", None, "3 Degrees Celsius", "corpus"),   # C11-F3 (plural, other case)
+    ("8_1_0", "Temperature", None, "3 kilodegree celsius", "corpus"),  # C11-F3 with an SI prefix
+    ("8_3_0", "Temperature", None, "3 x degree Celsius", "corpus"),  # extra word before a unit name with a blank
+    ("8_1_0", "Temperature", None, "3 Celsius", "corpus"),
     ("8_3_0", "Duration", None, "3 ms", "corpus"),
     ("8_3_0", "Duration", None, "3", "corpus"),
     ("8_3_0", "Duration", None, "3 xyz", "corpus"),
@@ -616,7 +646,7 @@ def classify_and_report(res, view, case, exp, got, stats):
         stats["accepted"] += 1
         if got["codes"] != exp["codes"]:
             blank_name = any(" " in r[1]["name"] for r in exp["readings"])
-            fid = "C11-F3" if (blank_name and "I" in got["codes"]) else None
+            fid = "C11-F3" if (not FIXED_F3 and blank_name and "I" in got["codes"]) else None
             res.report("accepted-spelling", cdesc, f"expected codes {exp['codes']} got {got['codes']}", fid=fid)
         elif set(got.get("other", [])) - CONTEXT_CODES:
             res.report("accepted-spelling", cdesc, f"other issues {got['other']}")
@@ -624,7 +654,7 @@ def classify_and_report(res, view, case, exp, got, stats):
         if vals is None:
             return
         v = got["value"]
-        if any(" " in r[1]["name"] for r in exp["readings"]):
+        if not FIXED_F3 and any(" " in r[1]["name"] for r in exp["readings"]):
             return          # already reported as C11-F3 above; the conversion cannot see the unit either
         want_abs = [x for x in vals if x is None]
         want_num = [x for x in vals if x is not None]
@@ -638,13 +668,13 @@ def classify_and_report(res, view, case, exp, got, stats):
         if v[0] == "exn":
             # C11-F1: accepted unit NAME written in a different case than the derived (lower-case) key
             ut = exp["unit_text"]
-            f1 = (v[1] == "TypeError" and want_num and ut != ut.lower()
+            f1 = (not FIXED and v[1] == "TypeError" and want_num and ut != ut.lower()
                   and all(not r[1]["symbol"] for r in exp["readings"]))
             res.report("convert-defined", cdesc, f"value_as_default_unit raised {v[1]}", fid="C11-F1" if f1 else None)
             return
         if v[0] == "q" and want_num:
             # C11-F2: a factor written a^b is 10x too large per caret
-            f2 = any(caret_count(r) > 0 and x is not None and close(x * 10 ** caret_count(r), q_of(v))
+            f2 = (not FIXED) and any(caret_count(r) > 0 and x is not None and close(x * 10 ** caret_count(r), q_of(v))
                      for r, x in zip(exp["readings"], vals))
             res.report("convert-value", cdesc, f"value {float(q_of(v))!r} expected {[float(x) for x in want_num]}",
                        fid="C11-F2" if f2 else None)
@@ -657,7 +687,7 @@ def classify_and_report(res, view, case, exp, got, stats):
             # C11-F4: several words after the number, the last of which is an accepted unit spelling
             ut = exp["unit_text"]
             last = ut.rpartition(" ")[2]
-            f4 = (" " in ut and "I" not in got["codes"] and "M" not in got["codes"]
+            f4 = (not FIXED_F4 and not FIXED_F3 and " " in ut and "I" not in got["codes"] and "M" not in got["codes"]
                   and any(not r[1]["prefix"] for r in spellings(view, classes_of(view, case), last)))
             res.report("other-text-invalid", cdesc, f"expected codes {exp['codes']} got {got['codes']}",
                        fid="C11-F4" if f4 else None)
@@ -665,7 +695,8 @@ def classify_and_report(res, view, case, exp, got, stats):
         if v[0] != "none":
             ut = exp["unit_text"]
             last = ut.rpartition(" ")[2]
-            f4 = (" " in ut and any(not r[1]["prefix"] for r in spellings(view, classes_of(view, case), last)))
+            f4 = (not FIXED_F4 and not FIXED_F3 and " " in ut
+                  and any(not r[1]["prefix"] for r in spellings(view, classes_of(view, case), last)))
             res.report("unrecognised-absent", cdesc, f"value_as_default_unit gave {v}", fid="C11-F4" if f4 else None)
 
 
@@ -682,7 +713,8 @@ def numeric_of(view, case):
 
 def model_line(path, view, case):
     cl = classes_of(view, case)
-    return "(" + " ".join([path, C.to_sx(FIXED), C.to_sx(numeric_of(view, case)),
+    return "(" + " ".join([path, C.to_sx(bool(FIXED)), C.to_sx(bool(FIXED_F3)), C.to_sx(bool(FIXED_F4)),
+                           C.to_sx(numeric_of(view, case)),
                            "(" + " ".join(_sx_str(c) for c in cl) + ")", _sx_str(case[3])]) + ")"
 
 
@@ -715,6 +747,9 @@ def _impl_worker(case):
 
 def run(tier, seed, res, model_ok=True, proof_ok=True):
     rng = random.Random(seed)
+    for fid, (active, what) in PRE_FIX_FINDINGS.items():
+        if active() and hasattr(res, "known_ids"):
+            res.known_ids.setdefault(fid, {"property": PROP, "id": fid, "what": what})
     vs = views()
     scratch = C.scratch_dir()
     try:
@@ -797,7 +832,7 @@ def run(tier, seed, res, model_ok=True, proof_ok=True):
             "oracle": {"accepted_spellings": stats["accepted"], "other_texts": stats["other"],
                        "values_compared": stats["values_checked"], "values_compared_exactly": stats["values_exact"]},
             "schemas": sorted(plan),
-            "fixed": FIXED,
+            "fixed": {"f1_f2": bool(FIXED), "f3": bool(FIXED_F3), "f4": bool(FIXED_F4)},
         }
     finally:
         shutil.rmtree(scratch, ignore_errors=True)
